@@ -1,22 +1,26 @@
 #!/bin/sh
 # developer tool: run every claimed quick check on /repo, validate evidence files against the schema
-cd /verif
+cd "$(dirname "$0")/.."
+V=$(pwd)
+L=${TMPDIR:-/tmp}/run_all_$$
+mkdir -p $L
 TIER=${1:-quick}
-python3 - <<'PY' > /tmp/claimed.txt
+python3 - <<'PY' > $L/claimed.txt
 import json
-print(' '.join(c['property_id'] for c in json.load(open('/verif/MANIFEST.json'))['checks']))
+print(' '.join(c['property_id'] for c in json.load(open('MANIFEST.json'))['checks']))
 PY
-for p in $(cat /tmp/claimed.txt); do
+for p in $(cat $L/claimed.txt); do
   s=$(date +%s)
-  /venv/bin/python harness/vcheck.py $p --tier $TIER > /tmp/run_$p.log 2>&1; rc=$?
+  /venv/bin/python harness/vcheck.py $p --tier $TIER > $L/run_$p.log 2>&1; rc=$?
   e=$(date +%s)
-  echo "$p rc=$rc $((e-s))s $(grep -c '^VIOLATION' /tmp/run_$p.log) violations, $(grep -c '^KNOWN-FINDING' /tmp/run_$p.log) known; $(tail -1 /tmp/run_$p.log | cut -c1-150)"
+  grep '^VIOLATION\|HARNESS ERROR\|Error' $L/run_$p.log | head -5
+  echo "$p rc=$rc $((e-s))s $(grep -c '^VIOLATION' $L/run_$p.log) violations, $(grep -c '^KNOWN-FINDING' $L/run_$p.log) known; $(tail -1 $L/run_$p.log | cut -c1-150)"
 done
 python3-vt - <<'PY'
 import json,jsonschema,glob
 sch=json.load(open('/root/.vp/EVIDENCE.schema.json'))
-for c in json.load(open('/verif/MANIFEST.json'))['checks']:
-    f=c['evidence_file']
+for c in json.load(open('MANIFEST.json'))['checks']:
+    f=c['evidence_file'].replace('/verif/', './')
     try:
         ev=json.load(open(f)); jsonschema.validate(ev,sch)
         cov=ev['coverage']
@@ -24,6 +28,6 @@ for c in json.load(open('/verif/MANIFEST.json'))['checks']:
         print(c['property_id'],'evidence ok', cov['obligations'],'thms', cov['evaluations'],'cases', cov['distinct_nontrivial'],'nontrivial')
     except Exception as e:
         print(c['property_id'],'EVIDENCE PROBLEM',str(e)[:200])
-jsonschema.validate(json.load(open('/verif/MANIFEST.json')), json.load(open('/root/.vp/MANIFEST.schema.json')))
+jsonschema.validate(json.load(open('MANIFEST.json')), json.load(open('/root/.vp/MANIFEST.schema.json')))
 print('manifest valid')
 PY
